@@ -27,7 +27,7 @@ RULE = ("one run = 1-3 tests, each a schedule over 1-3 bound mutable objects: co
         "interleaved with in-place mutations (append / clear / item assignment / attribute assignment / inner-element mutation / alias mutation), "
         "create (+fix with previous content) approved; distinct = (operation, kind of object, mutation, position of the mutation relative to "
         "the comparisons); non-trivial = at least one mutation after a comparison of the same object")
-ASSUMPTIONS = ["sites that contradict themselves (== with two different values) are exempt", "<= / >= use lists of ints (totally ordered)"]
+ASSUMPTIONS = ["a == site observed with two different values keeps the copy taken at its first comparison (the second value is the same object after a mutation)", "<= / >= use lists of ints (totally ordered)"]
 REAL_VS_STUB = {
     "real": ["inline_snapshot library from /repo/src (clone = deepcopy + equality self-check)", "Example.run_inline (bulk)", "pytest + plugin (sample)"],
     "stub": ["the scheduler (writes mutation and comparison events into the test bodies)", "formatter states"],
@@ -101,6 +101,19 @@ def generate(seed, tier="quick"):
             events.append({"t": "bind", "var": f"x{var_n}", "val": bc})
             events.append({"t": "cmp", "eid": f"e{eid_n}", "site": f"s{sid_n}", "var": f"x{var_n}", "style": "rec", "badcopy": True})
         tests.append({"name": f"test_t{ti}", "events": events})
+    if rng.random() < 0.3:
+        # a == snapshot that already holds the value, compared again by the same object after a mutation (and once more after another one)
+        var_n += 1
+        sid_n += 1
+        val, muts = V.gen_mutable(rng, prof)
+        prev = rng.choice([val, val, None, V.gen_mutable(rng, prof)[0]])
+        sites[f"s{sid_n}"] = {"op": "eq", "place": rng.choice(["func", "module", "lam"]), "arg": None if prev is None else V.expr(prev), "prev": prev}
+        events = [{"t": "bind", "var": f"x{var_n}", "val": val}]
+        for k in range(rng.randint(2, 3)):
+            eid_n += 1
+            events.append({"t": "cmp", "eid": f"e{eid_n}", "site": f"s{sid_n}", "var": f"x{var_n}", "style": "rec"})
+            events.append({"t": "mutate", "var": f"x{var_n}", "how": rng.choice(muts)})
+        tests.append({"name": f"test_again{var_n}", "events": events})
     if rng.random() < 0.3:
         # a bound that is pushed further by the same object after a mutation, and the object is mutated again afterwards
         var_n += 1
@@ -209,7 +222,12 @@ def execute(case, ctx):
         sm = m.sites[sid]
         if sm.kind is None:
             continue
-        if sm.exempt() or any(isinstance(a, str) for f2, t2, e in events if e.get("site") == sid for a in (rec.get(e["eid"]) or [])):
+        # `==` observed with two different values: here the second value is the same object after a mutation, and what gets written
+        # must not be altered by it - the copy taken at the first comparison stands (the model's rule for ==)
+        first_wins = sm.kind == "eq" and sm.contradictory and not sm.raised and not sm.mixed_ops
+        if first_wins:
+            ctx.count("probe_eq_site_compared_again_after_mutation")
+        if (sm.exempt() and not first_wins) or any(isinstance(a, str) for f2, t2, e in events if e.get("site") == sid for a in (rec.get(e["eid"]) or [])):
             out["discards"]["site-exempt"] = out["discards"].get("site-exempt", 0) + 1
             continue
         try:
